@@ -132,6 +132,15 @@ def rplist_on(rng, N, L, pool):
     return out
 
 
+def rsparse(rng, N, w, herm=True, pool=None):
+    """an operator of weight w (on qubits from [pool] if given), either sign (any phase if not herm)"""
+    qs = rng.sample(list(pool) if pool is not None else range(N), min(w, N))
+    g = [0] * (2 * N)
+    for q in qs:
+        g[2 * q], g[2 * q + 1] = rng.choice([(1, 0), (0, 1), (1, 1)])
+    return [g, rng.choice([0, 2]) if herm else rng.randint(0, 3)]
+
+
 def rgate(rng, model, N, kinds=('gen', 'fwd', 'bwd', 'both', 'named'), pool=None):
     """random deterministic gate spec on ascending qubits (drawn from [pool] when given)"""
     from .core import Some
